@@ -9,6 +9,7 @@ from dataclasses import dataclass, field
 from typing import Any, Dict, List, Optional
 
 DEFAULT_SEED = 20260927
+CURRENT_BASE_SEED = DEFAULT_SEED      # set by the driver in every worker before gen(); lets a generator derive group-level seeds
 
 
 def derive_seed(base: int, prop: str, index: int) -> int:
